@@ -66,7 +66,7 @@ def n_files(maxlen, crlflen):
 
 # spaces per tier: (max bytes of a file without CRLF, max bytes of a file with CRLF), range bounds
 SPACE = {"quick": {"file": (8, 6), "csv": (7, 5), "bounds": 8},
-         "thorough": {"file": (13, 11), "csv": (11, 9), "bounds": 12}}
+         "thorough": {"file": (13, 10), "csv": (11, 9), "bounds": 12}}
 
 
 def models(V, wd, tier):
@@ -242,7 +242,9 @@ def seq_cases():
 # real runs
 
 def run_vhs(cases, wd, nproc=None, timeout=1500):
-    nproc = max(1, min(nproc or NPROC, len(cases)))
+    # every job spawns one thread per replica (+1 for the sink): thread creation, not CPU, bounds the
+    # throughput (measured: 14 processes are no faster than 8), so keep the process count moderate
+    nproc = max(1, min(nproc or min(NPROC, 8), len(cases)))
     chunks = [cases[i::nproc] for i in range(nproc)]
 
     def one(i):
